@@ -2296,9 +2296,12 @@ package apd
 //@   props C04
 //@   pure
 //@ func Decimal.Value
-//@   props C04
+//@   props C04 C13 C14
 //@   exported
 //@   pure
+//@   allocates
+//@   ensures {C13,C14} [text] ret1 == nil && DecText(bytes(istr(ret0)), 0, d.Form, d.Negative, val(d.Coeff), d.Exponent, 71)
+//@   ensures {C13,C14} [parses] d.Form == Finite && inlimitsB(val(d.Coeff), d.Exponent) ==> FinText(bytes(istr(ret0)), d.Negative, val(d.Coeff), d.Exponent, 69)
 //@ func NullDecimal.Value
 //@   props C04
 //@   exported
